@@ -74,6 +74,39 @@ def run_mc(focus: str, depth: int, workdir: str) -> dict:
     return {"alphabet": alpha, "inits": inits, "covers": covers, "summary": summ}
 
 
+def run_sim(num: int, depth: int, seed_: int, workdir: str) -> dict:
+    """tlc -simulate on the unfocused configuration MC_all: random deep behaviours; every formula is checked
+    along them and each maximal behaviour is returned for replay on the real code."""
+    text = open(os.path.join(workdir, "MC_all.cfg")).read()
+    text = re.sub(r"MaxDepth = \d+", f"MaxDepth = {depth}", text)
+    with open(os.path.join(workdir, "MC_all_sim.cfg"), "w") as fil:
+        fil.write(text)
+    out = tlc.run(workdir, "MC_all", "MC_all_sim.cfg", workers=1,
+                  args=["-simulate", f"num={num}", "-depth", str(depth + 2), "-seed", str(seed_ + 1)])
+    if re.search(r"is violated|Error:", out):
+        common.machinery_failure("simulation of MC_all: a formula is violated in the model itself or TLC failed:\n" + out[-3000:])
+    alpha = inits = None
+    hists, prev = [], None
+    for line in out.splitlines():
+        if line.startswith('<<"ALPHABET"'):
+            alpha = json.loads(json.loads(line[len('<<"ALPHABET", '):-2]))
+        elif line.startswith('<<"INITS"'):
+            inits = json.loads(json.loads(line[len('<<"INITS", '):-2]))
+        else:
+            m = tlc._COVER.search(line)
+            if m:
+                h = json.loads(m.group(1))
+                if prev is not None and h[:len(prev)] != prev:
+                    hists.append(tuple(prev))
+                prev = h
+    if prev is not None:
+        hists.append(tuple(prev))
+    m = re.search(r"number of states generated: (\d+)", out)
+    gen = int(m.group(1)) if m else sum(len(h) for h in hists)
+    return {"alphabet": alpha, "inits": inits, "covers": sorted(set(hists)),
+            "summary": {"generated": gen, "distinct": gen, "depth": depth, "error": None, "violated": []}}
+
+
 def _fix_pairs(x):
     return x if isinstance(x, list) else []
 
@@ -399,6 +432,14 @@ def check(prop: str) -> int:
                 init, events = concretise(focus, mc, covers[len(covers) // 2])
                 rep.sample({"source": f"TLC cover of MC_{focus}", "init_ver": init["ver"],
                             "events": [{k: v for k, v in e.items() if k in ("k", "n", "c", "cmd", "t", "p", "buf", "fault")} for e in events]})
+        # random deep behaviours of the unfocused model (all features interacting)
+        sim = run_sim(150 if tier == "quick" else 2500, 25 if tier == "quick" else 40, common.seed() * 31 + int(prop[1:]), workdir)
+        sim_hists = [h for h in sim["covers"] if "faults" not in spec or has_fault(sim, h) == spec["faults"]]
+        rep.add_tlc("MC_all (tlc -simulate)", sim["summary"], {"behaviours_replayed": len(sim_hists), "simulation": True,
+                                                               "exhaustive_within_model_bounds": False})
+        for h in sim_hists:
+            init, events = concretise("all", sim, h)
+            jobs.append((init, events, None))
         nq, nt, length = spec["rand"]
         nrand = nq if tier == "quick" else nt
         for _ in range(nrand):
